@@ -33,7 +33,14 @@ LEVEL_TEXT = (
     "the rows read back are one per argument of x_list in the order of the list — unsorted lists, the same argument several times, equal neighbours (joined grids, 0.0 next to -0.0), ranges whose spacing is below the "
     "resolution of the number type included —, the line count is header lines + arguments, equal arguments give equal rows, and the same holds for Export_Function (list and range overload) as a call of a session after and "
     "between any other calls. "
-    "The session model is tied to the code by `session` cases (2..9 calls over 1..3 paths, 200-row tables followed by 1-row ones, lists where tables were, tabulated functions (list and range overload) among them, repeated requests); "
+    "(7) File_Exists and repetition (C20_file_exists_transparent, C20_file_exists_answer, C20_session_repetition; induction over sessions of any length and any number of repetitions, every number type): "
+    "File_Exists is a call of the session model (stat: opens nothing, keeps nothing); deleting every File_Exists call from ANY session changes neither whether/how the process is terminated, nor the final files, nor any "
+    "other answer; it answers true from the first export to the path on whatever is called afterwards, and as at the start while nothing was exported to the path; and when a block of calls made once and then a second time "
+    "does not terminate the process, it can be made any number of further times: never terminated, every repetition answers exactly as the second, the files stay what the first left. "
+    "These are theorems about the MODEL, in which calls hold no per-process resource; that the library's calls hold none (descriptors, static tables) is NOT a theorem: it is tested by `lsession` cases — a block of round trips "
+    "with File_Exists / Count_Lines between export and import made 300..1200 times in one process, half of them under a soft descriptor limit (RLIMIT_NOFILE) of 32..256 installed by the harness "
+    "(ambient:descriptor-limit) — every answer of every repetition compared with the model and with the last export; a leak slower than about one descriptor per ten repetitions of the block, or of another resource (memory), would not be seen. "
+    "The session model is tied to the code by `session` cases (File_Exists among the calls; 2..9 calls over 1..3 paths, 200-row tables followed by 1-row ones, lists where tables were, tabulated functions (list and range overload) among them, repeated requests); "
     "the function round trips are generated with increasing, decreasing, unsorted argument lists, joined grids, runs of one value, signed zeros, neighbours at relative distances 1 ulp .. 1e-6, fixed spacings at magnitudes 1e16..1e22, "
     "and ranges with fewer representable numbers between the limits than steps, descending and coinciding limits, 0..2 steps (coverage.input_distribution args:* / range:* / grid:*). "
     "NOT theorems (checked per run by correspondence and implementation-side predicates): that iostreams implement such an fmt6 (the real writer/reader run on tables "
@@ -499,7 +506,7 @@ def generate_sessions(rng, tier, cs):
                 else: calls.append(f"it {pi} {flist(e[3])} {hlines(e[1])}")
             elif k < 0.95:
                 if amb is not None and "pre" in amb and pi not in held: pi = rng.choice(sorted(held))     # (the old file put there by the harness is not in the model)
-                calls.append(f"cl {pi}")
+                calls.append(f"{'cl' if rng.random() < 0.5 else 'fe'} {pi}")
             elif amb is None:     # (not under a changed process state: these requests read header text, whose numbers are spelt for the classic locale) requests outside the round trip: another reader, other units, another number of lines, a path never written
                 wf = False
                 if rng.random() < 0.5: calls.append(f"it {pi} {flist([] if rng.random() < 0.6 else [2.0])} {rng.choice([0, 1, 2])}")
@@ -511,9 +518,53 @@ def generate_sessions(rng, tier, cs):
         else: cs.append(Case(line, tags))
 
 
-def session_predicates(r, io, v):
+# Long sessions: a block of round trips (export, File_Exists as callers do before importing, Count_Lines, import; 1..3 paths, small
+# lists / tables / tabulated functions) made 300..1200 times over in ONE process, half of them in a process whose soft descriptor
+# limit is 32..256 (ambient item nofN).  Every answer of every repetition is compared with the model and with the last export: a
+# call that leaves something behind per call (a descriptor, a static table entry, a remembered answer) shows after enough calls.
+def generate_long_sessions(rng, tier, cs):
+    n = 40 if tier != "quick" else 14        # (a sanitizer build needs ~3 s per long session)
+    for it in range(n):
+        npth = rng.choice([1, 2, 3])
+        paths = [os.path.join(FILES, "lsess_%d.txt" % i) for i in range(npth)]
+        calls = []; has_f = False; n_fe = 0
+        for _ in range(rng.choice([1, 1, 2, 3])):
+            pi = rng.randrange(npth); h = rand_header(rng); kk = rng.random()
+            if kk < 0.2:
+                for _try in range(8):
+                    fe, f = rng.choice(FEXPRS); dims = [] if rng.random() < 0.3 else [10.0 ** rng.uniform(-12, 12), 10.0 ** rng.uniform(-12, 12)]
+                    xs, _t1, _t2 = rand_args(rng, 5)
+                    if all(pair_ok(v_, dims[j] if dims else 1.0) for x in xs for j, v_ in enumerate((x, f(x)))): break
+                    EXCLUDED["n"] += 1
+                else: fe, f = FEXPRS[0]; xs = [1.0, 1.0, 2.0]; dims = []
+                calls.append(f"ef {pi} {hexs(h)} {fe} {flist(xs)} {flist(dims)}"); imp = f"it {pi} {flist(dims)} {hlines(h)}"; has_f = True
+            elif kk < 0.45:
+                d = rand_unit(rng); l = [value_for(rng, d) for _ in range(rng.choice([0, 1, 2, 3, 6]))]
+                calls.append(f"el {pi} {hexs(h)} {flist(l)} {hx(d)}"); imp = f"il {pi} {hx(d)} {hlines(h)}"
+            else:
+                c_ = rng.randint(1, 4); r_ = rng.choice([1, 2, 3])
+                dims = [] if rng.random() < 0.3 else [rand_unit(rng) for _ in range(c_)]
+                t = [[value_for(rng, dims[j] if dims else 1.0) for j in range(c_)] for _ in range(r_)]
+                calls.append(f"et {pi} {hexs(h)} {table_line(t)} {flist(dims)}"); imp = f"it {pi} {flist(dims)} {hlines(h)}"
+            if rng.random() < 0.2: calls.append(f"fe {rng.randrange(npth)}")       # another path: absent in the first repetition perhaps
+            if rng.random() < 0.85: calls.append(f"fe {pi}"); n_fe += 1
+            if rng.random() < 0.3: calls.append(f"cl {pi}")
+            calls.append(imp)
+            if rng.random() < 0.15: calls.append(f"fe {pi}"); n_fe += 1
+        amb = rng.choice([None, "nof32", "nof64", "nof64", "nof128", "nof256"])
+        lim = 20000 if amb is None else int(amb[3:])
+        reps = rng.choice([300, 400, 600]) if lim <= 256 else rng.choice([300, 1200])
+        line = f"lsession {reps} {npth} " + " ".join(paths) + f" {len(calls)} " + " ".join(calls)
+        tags = ("session", "session:long", "session:well-formed", "session:path-rewritten", "session:file-exists-calls>=%d" % (100 * min(10, reps * n_fe // 100) if n_fe else 0))
+        if has_f: tags += ("session:with-function-export",)
+        if amb: cs.append(Case("amb " + amb + " " + line, tags + ("ambient", "ambient:descriptor-limit")))
+        else: cs.append(Case(line, tags))
+
+
+def session_predicates(r, io, v, long=False):
     """every import of a session against the last export to its path"""
     out = []
+    reps = r.n() if long else 1
     np_ = r.n(); [r.w() for _ in range(np_)]
     calls = []
     for _ in range(r.n()):
@@ -528,20 +579,26 @@ def session_predicates(r, io, v):
         elif k == "il": calls.append((k, pi, r.f(), r.n()))
         elif k == "it": calls.append((k, pi, r.l(), r.n()))
         else: calls.append((k, pi))
+    block = len(calls); calls = calls * reps
     held = {}; writes = {}; pos = 0; must_exit = None; unsure = False
     exited = io.startswith("EXIT")
-    for c in calls:
+    for ci, c in enumerate(calls):
         k, pi = c[0], c[1]
         reg = ":path-rewritten" if writes.get(pi, 0) > 1 else ":path-written-once"
         if k == "el": held[pi] = ("l", c[2], c[3], c[4]); writes[pi] = writes.get(pi, 0) + 1
         elif k == "et":
             held[pi] = ("t", c[2], c[3], c[4]); writes[pi] = writes.get(pi, 0) + 1
             if c[4] and any(len(row) != len(c[4]) for row in c[3]): must_exit = "Export_Table with rows whose length differs from the number of dimensions"; break
+        elif k == "fe":
+            if exited: continue
+            want = int(pi in held)
+            if v[pos] != want: out.append(("session:file-exists" + reg, f"File_Exists = {v[pos]} for a path {'written to by an earlier call' if want else 'nothing was written to'} (call {ci % block} of repetition {ci // block})"))
+            pos += 1
         elif k == "cl":
             if exited: continue
             e = held.get(pi); want = 0 if e is None else hlines(e[1]) + len(e[2])
             if e is not None and e[0] == "t" and any(len(row) == 0 for row in e[2]): pos += 1; continue
-            if v[pos] != want: out.append(("session:count-lines" + reg, f"Count_Lines = {v[pos]} after {want} lines were written to the path (call {calls.index(c)})"))
+            if v[pos] != want: out.append(("session:count-lines" + reg, f"Count_Lines = {v[pos]} after {want} lines were written to the path (call {ci % block} of repetition {ci // block})"))
             pos += 1
         else:
             e = held.get(pi)
@@ -553,19 +610,19 @@ def session_predicates(r, io, v):
             if k == "il":
                 got = v[pos + 1:pos + 1 + v[pos]]; pos += 1 + v[pos]
                 if exact:
-                    if len(got) != len(e[2]): out.append(("session:list-shape" + reg, f"{len(e[2])} values written last to the path, {len(got)} read back (call {calls.index(c)})"))
+                    if len(got) != len(e[2]): out.append(("session:list-shape" + reg, f"{len(e[2])} values written last to the path, {len(got)} read back (call {ci % block} of repetition {ci // block})"))
                     else:
                         for x, y in zip(e[2], got):
-                            if not close6(y, x): out.append(("session:list-six-digits" + reg, f"wrote {x!r}, read {y!r} (call {calls.index(c)})")); break
+                            if not close6(y, x): out.append(("session:list-six-digits" + reg, f"wrote {x!r}, read {y!r} (call {ci % block} of repetition {ci // block})")); break
             else:
                 got, pos = read_out_table(v, pos)
                 if exact:
                     if [len(row) for row in got] != [len(row) for row in e[2]]:
-                        out.append(("session:table-shape" + reg, f"wrote {len(e[2])} x {len(e[2][0])} last to the path, read back {len(got)} x {len(got[0]) if got else 0} (call {calls.index(c)})"))
+                        out.append(("session:table-shape" + reg, f"wrote {len(e[2])} x {len(e[2][0])} last to the path, read back {len(got)} x {len(got[0]) if got else 0} (call {ci % block} of repetition {ci // block})"))
                     else:
                         for rx, ry in zip(e[2], got):
                             if not all(close6(y, x) for x, y in zip(rx, ry)):
-                                out.append(("session:table-six-digits" + reg, f"wrote row {rx[:4]!r}, read {ry[:4]!r} (call {calls.index(c)})")); break
+                                out.append(("session:table-six-digits" + reg, f"wrote row {rx[:4]!r}, read {ry[:4]!r} (call {ci % block} of repetition {ci // block})")); break
     if must_exit and not exited: out.append(("session:guard", f"the session went on after {must_exit}"))
     if exited and not must_exit and not unsure and not out: out.append(("session:exit", "a session of matching exports and imports terminated the process"))
     return out
@@ -607,6 +664,7 @@ def ambient_kinds(spec):
         elif it.startswith("c"): k.add("cout-format")
         elif it.startswith("pre"): k.add("old-file-at-path")
         elif it == "rel": k.add("relative-path")
+        elif it.startswith("nof"): k.add("descriptor-limit")
     return sorted(k)
 
 
@@ -750,6 +808,7 @@ def generate(rng, tier):
     generate_ambient(rng, tier, cs)
     # ---- several calls in one process over a few paths
     generate_sessions(rng, tier, cs)
+    generate_long_sessions(rng, tier, cs)
     return cs
 
 
@@ -898,8 +957,8 @@ def predicates(c, io):
             for j, (x, y) in enumerate(zip(rx, ry)):
                 if not (y == x or abs(y - x) <= slack * abs(x)):
                     out.append((op + ":six-digits", f"entry ({i},{j}): wrote {x!r} in units of {(dims[j] if dims else 1.0)!r}, read back {y!r} (rel {abs(y-x)/abs(x) if x else math.inf:.3g})")); return out
-    elif op == "session":
-        out += session_predicates(r, io, v if not io.startswith("EXIT") else [])
+    elif op in ("session", "lsession"):
+        out += session_predicates(r, io, v if not io.startswith("EXIT") else [], long=(op == "lsession"))
     elif op == "import_missing":
         if not io.startswith("EXIT"): out.append(("import:missing-accepted", "importing a file that does not exist did not terminate the process"))
     elif op == "import_raw":
